@@ -94,7 +94,7 @@ const required = "at most one live owner per key; a refused connection is closed
 // stall is the panic value of a bounded wait that expired.
 type stall struct{ what string }
 
-// keyFunc of the harness server: phone 99xxx -> invalid; phone 88 -> the empty key; else key = phone.
+// keyFunc of the harness server: phone 99xxx -> invalid; phone 88 -> the empty key; else key = "0" + phone.
 func keyOf(phone string) (string, bool) {
 	if strings.HasPrefix(phone, "99") {
 		return "", false
@@ -102,7 +102,9 @@ func keyOf(phone string) (string, bool) {
 	if phone == "88" {
 		return "", true
 	}
-	return phone, true
+	// every ordinary key starts with the digit 0 (a KeyFunc may yield any string; the default one yields the all-zero
+	// SIM with its zeros): routing must use the key exactly as it was announced, not a normalised form of it
+	return "0" + phone, true
 }
 
 func phoneOfKey(k int) string {
@@ -116,7 +118,7 @@ func keyNum(key string) string {
 	if key == "" {
 		return "0"
 	}
-	return key
+	return strings.TrimPrefix(key, "0")
 }
 
 var (
